@@ -99,8 +99,7 @@ Definition model_store_step (s : store) (o : sop) : option store :=
     let dk := construct_data_key i v 0 tk in
     let want := if existsb (bytes_eqb dk) ks then
                   match kv_get dk s with
-                  | Some [] => Ok None                (* badger hands back nil for an empty value *)
-                  | Some val => Ok (Some val)
+                  | Some val => Ok (Some val)         (* C05-1-fix: an empty stored value is a value *)
                   | None => Ok None
                   end
                 else Ok None in
